@@ -1,0 +1,9 @@
+//go:build verif
+
+package bg
+
+// VerifLimit reports how many tasks may be pending in the queue before
+// Enqueue blocks the caller.
+func (tq *TaskQueue) VerifLimit() int {
+	return cap(tq.c)
+}
